@@ -5,6 +5,7 @@ A check that reports a VIOLATION on such a tree is a false alarm (or, by the rul
 `no-failing-input-found` report of a broken correspondence). Results: benign/Bk/eval.json."""
 import json, os, subprocess, sys, glob, fnmatch
 VERIF = os.path.dirname(os.path.abspath(__file__))
+REPO = os.environ.get("VERIF_REPO", "/repo")
 props = [json.loads(l) for l in open(os.path.join(VERIF, "properties.jsonl"))]
 def props_for(path):
     out = []
@@ -20,9 +21,9 @@ for d in sorted(glob.glob(os.path.join(VERIF, "benign", "B*")), key=lambda x: in
     meta = json.load(open(os.path.join(d, "meta.json")))
     f = meta["file"]
     ps = props_for(f)
-    if subprocess.run(["git", "-C", "/repo", "status", "--porcelain"], capture_output=True, text=True).stdout.strip():
+    if subprocess.run(["git", "-C", REPO, "status", "--porcelain"], capture_output=True, text=True).stdout.strip():
         print("refusing: /repo dirty"); sys.exit(2)
-    r = subprocess.run(["git", "-C", "/repo", "apply", os.path.join(d, "patch.diff")], capture_output=True, text=True)
+    r = subprocess.run(["git", "-C", REPO, "apply", os.path.join(d, "patch.diff")], capture_output=True, text=True)
     if r.returncode != 0:
         print(bid, "patch does not apply:", r.stderr[:200]); continue
     res = {}
@@ -34,7 +35,7 @@ for d in sorted(glob.glob(os.path.join(VERIF, "benign", "B*")), key=lambda x: in
             viol = [l for l in out.stdout.splitlines() if l.startswith("VIOLATION")]
             res[p] = {"exit": out.returncode, "violations": viol}
     finally:
-        subprocess.run(["git", "-C", "/repo", "checkout", "--", "."]); subprocess.run(["git", "-C", "/repo", "clean", "-fdq"])
+        subprocess.run(["git", "-C", REPO, "checkout", "--", "."]); subprocess.run(["git", "-C", REPO, "clean", "-fdq"])
     json.dump({"file": f, "checks": res}, open(os.path.join(d, "eval.json"), "w"), indent=1)
     print(bid, f, {p: ("ALARM " + (v["violations"][0] if v["violations"] else f"exit {v['exit']}")) if v["exit"] != 0 else "quiet" for p, v in res.items()}, flush=True)
 subprocess.run(["git", "checkout", "evidence/"], cwd=VERIF, capture_output=True)
